@@ -150,6 +150,25 @@ def commute_queries(tier):
                                 d["P_BAR"] = 2 if (ka == kb == 12) else 1
                             if not feasible(ka, kb, oa, ob, pre, order):
                                 continue
+                            # two condition variables: B may use the second one (pairs of condition-variable simcalls only)
+                            cvs = [(0, 0)]
+                            if ka in (7, 8, 9, 10) and kb in (7, 8, 9, 10) and (tier == "thorough" or (pre == 0 and not order and var != 2)):
+                                cvs.append((0, 1))
+                            for ca, cb in cvs:
+                                dd = dict(d, P_CA=ca, P_CB=cb) if (ca, cb) != (0, 0) else d
+                                if tier == "quick":
+                                    if order or pre == 3 or (pre == 2 and (not ({ka, kb} & {9, 10}) or d.get("P_SIG"))) or not (fam_pair or (ka in (4, 5, 6) and kb in (4, 5, 6)) or (ka >= 11 and kb >= 11)):
+                                        continue
+                                    if (oa, ob) != (0, 0) or (pre == 1 and not ({ka, kb} & {0, 1, 3})) or not both_enabled(ka, kb, oa, ob, pre, order, d):
+                                        continue
+                                name = f"commute_{KINDS[ka]}_{KINDS[kb]}_o{oa}{ob}" + (f"_c{ca}{cb}" if (ca, cb) != (0, 0) else "") + f"_pre{pre}" + ("_ord" if order else "") + \
+                                       ("_tmo" if d.get("P_TMO") else "") + ("_sig" if d.get("P_SIG") else "")
+                                if name in seen:
+                                    continue
+                                seen.add(name)
+                                qs.append(Query(name, "C39/commute.cpp", "harness_commute", dd, CSRC, unwind=8, cap_s=600, mem_gb=12, memcap=16,
+                                                prelude=["rbtree", "nostring"], no_pointer_overflow=True))
+                            continue
                             if tier == "quick":
                                 if order or pre == 3 or (pre == 2 and (not ({ka, kb} & {9, 10}) or d.get("P_SIG"))) or not (fam_pair or (ka in (4, 5, 6) and kb in (4, 5, 6)) or (ka >= 11 and kb >= 11)):
                                     continue
